@@ -61,6 +61,8 @@ template <template <class> class QT> struct Row {
         case 2: if constexpr (HasMutableValue<Q>::value && !IsDirection<Q>::value) set_component<V>(q.MutableValue(), comp[k] % N, (T)a[0], false); else return -1; break;
         case 3: if constexpr (HasMutableValue<Q>::value && !IsDirection<Q>::value) set_component<V>(q.MutableValue(), comp[k] % N, (T)a[0], true); else return -1; break;
         case 4: { Q c = make<Q, T>(a); c = q; Q d(c); q = d; } break;
+        case 6: { const Q c = make<Q, T>(a); q = c; } break;                      // copy assignment of a given value into the object (which holds state)
+        case 7: { Q c = make<Q, T>(a); q = std::move(c); } break;                 // move assignment
         default: { unsigned char buf[sizeof(Q)]; std::memcpy(buf, static_cast<const void*>(&q), sizeof(Q)); Q c = make<Q, T>(a); std::memcpy(static_cast<void*>(&c), buf, sizeof(Q)); q = c; } break;
       }
       flat(q, after + (size_t)k * N);
